@@ -288,7 +288,7 @@ func RunBFS(c *vlib.Ctx) { run(c) }
 func ReplayBFS(c *vlib.Ctx, w string) { replayWitness(c, w) }
 
 // Rule is the sequential part of the rule text.
-const RuleBFS = "breadth-first search over histories of {add, term:i, gc, get:i, latest, list} on a fresh lang.NewJobs() with at most N jobs ever added (N=10 quick, 12 thorough), canonical state = (jobs added, class of Get(i) for every i), every operation executed in every reachable state and compared with a model of the statement, to a fixpoint"
+const RuleBFS = "breadth-first search over histories of {add, term:i, gc, get:i, latest, list} on a fresh lang.NewJobs() with at most N jobs ever added (N=10 quick, 12 thorough), canonical state = (jobs added, class of Get(i) for every i), every operation executed in every reachable state and compared with a model of the statement, to a fixpoint; PLUS every history of <= L mutating operations {add, term:i, gc} with <= 4 jobs ever added run without any state merging, all reads compared after each (quick L=7, thorough L=9)"
 
 func run(c *vlib.Ctx) {
 	n := bound(c)
@@ -326,6 +326,45 @@ func run(c *vlib.Ctx) {
 	}
 	c.Extra("bfs depth (longest shortest history)", int64(depth))
 	c.Extra("bound: jobs ever added", int64(n))
+}
+
+// RunExhaustive: every history of at most maxLen mutating operations {add, term:i, gc} with at most n jobs
+// ever added, WITHOUT merging states (the canonical state of the search above is what Get reports, which
+// fixes the future only as long as the table keeps nothing else: a nil slot and a finished-but-uncollected
+// one read the same). After every history all reads are compared with the model. Sharded by first-level
+// subtree position.
+func RunExhaustive(c *vlib.Ctx, n, maxLen int) {
+	var rec func(hist []string)
+	rec = func(hist []string) {
+		var ops []string
+		for _, op := range replayHist(n, hist).enabled() {
+			if op == "add" || op == "gc" || strings.HasPrefix(op, "term:") {
+				ops = append(ops, op)
+			}
+		}
+		for _, op := range ops {
+			h := append(append([]string{}, hist...), op)
+			if len(h) == 3 && !c.Next() {
+				continue // deal the depth-3 subtrees out to the workers (shallower histories are run by all)
+			}
+			if len(h)&7 == 0 && c.Expired() {
+				return
+			}
+			in := replayHist(n, hist)
+			w := strings.Join(h, " ")
+			v := func(clause, detail string) { c.Violation(clause, w, detail) }
+			nt := in.hole()
+			_, outcome, _ := in.step(op, v)
+			in.checkAll(v)
+			c.P.Transitions++
+			c.Eval(nt || strings.HasSuffix(outcome, "reused"), "unmerged "+outcome)
+			if len(h) < maxLen {
+				rec(h)
+			}
+		}
+	}
+	rec(nil)
+	c.Extra("unmerged histories: max length", int64(maxLen))
 }
 
 func replayWitness(c *vlib.Ctx, w string) {
